@@ -27,6 +27,7 @@ type c07cfg struct {
 	gap     time.Duration
 	clients []c07client
 	rollout bool
+	inflight bool // a request is being served (for 900ms) when the sequence starts
 }
 
 func (c c07cfg) String() string {
@@ -34,7 +35,7 @@ func (c c07cfg) String() string {
 	for _, x := range c.clients {
 		cl = append(cl, fmt.Sprintf("%s@%v", x.kind, x.offset))
 	}
-	return fmt.Sprintf("seq=%s gap=%v clients=[%s] rollout=%v", c.seq, c.gap, strings.Join(cl, ","), c.rollout)
+	return fmt.Sprintf("seq=%s gap=%v clients=[%s] rollout=%v inflight=%v", c.seq, c.gap, strings.Join(cl, ","), c.rollout, c.inflight)
 }
 
 const (
@@ -85,6 +86,10 @@ func c07Configs(tier string) []c07cfg {
 			}
 			cfgs = append(cfgs, c07cfg{seq: s, gap: gap, clients: cl})
 		}
+		if len(s) <= 2 || tier != "quick" {
+			// a request in flight keeps the drain of the first pause/stop open while another one arrives
+			cfgs = append(cfgs, c07cfg{seq: s, gap: gap, clients: []c07client{{"get", 300 * time.Millisecond}}, inflight: true})
+		}
 		if tier != "quick" {
 			cfgs = append(cfgs, c07cfg{seq: s, gap: 0, clients: sets[0]})
 			cfgs = append(cfgs, c07cfg{seq: s, gap: gap, clients: sets[1], rollout: true})
@@ -120,8 +125,15 @@ func c07Scenario(c c07cfg) *Scenario {
 			w.RolloutSet("s1", 0, []string{"v"})
 		}
 		time.Sleep(vI/2 + 30*time.Millisecond)
-		_ = w.Now()
 		var wg vsync.WaitGroup
+		if c.inflight {
+			wg.Add(1)
+			vsched.GoTagged("client", func() {
+				defer wg.Done()
+				w.Do(ReqSpec{ID: "inflight", Host: host, Path: "/", Plan: "delay=900ms"})
+			})
+			time.Sleep(100 * time.Millisecond)
+		}
 		w.S.SetWindow(true)
 		wg.Add(1)
 		vsched.GoTagged("cmd", func() {
@@ -335,6 +347,16 @@ func c07Scenario(c c07cfg) *Scenario {
 			case obs == "503-plain":
 				sig = "refused-without-stop-message via " + lastSites(r.Sites, 2)
 				_ = anyStop
+				// without stalls the gate closes at the virtual instant the command starts: a request
+				// arriving at a later instant cannot have passed it legitimately
+				if !stalled {
+					for x, cm := range cmdList {
+						if (c.seq[x] == 'P' || c.seq[x] == 'p' || c.seq[x] == 'S') && cm.StartSeq < r.StartSeq && r.Start > cm.Start && r.Start <= cm.End {
+							sig += " arrived-after-gate-closed"
+							break
+						}
+					}
+				}
 			case obs == "504":
 				sig = "held-request-timed-out-wrongly"
 			}
